@@ -6,6 +6,7 @@
        3 sectors: theta_3dB = 70,  Am = 20 dB, G = 14 dBi;   6 sectors: theta_3dB = 35, Am = 23 dB, G = 17 dBi
    Omnidirectional antenna (AntGainOmni): the configured gain (0 dBi when none is given) at every angle.
 
+   The gain is checked for every quarter degree and around the floor crossing; the default constructor is the 3-sector one.
    A "star" model: `Next` picks one case (sector count, integer angle / omni gain), computes the exact
    rational gain in dB and emits it; the laws of the property are invariants evaluated on every case:
    symmetric, maximal at boresight, floored at G - Am (and the floor is reached), omni constant.
@@ -15,18 +16,22 @@
    DevNoFloor: the pattern without the min(., Am) - must be refuted by `Floored`.              *)
 EXTENDS Integers, Sequences, TLC, Emit, PathLossParams
 
-CONSTANTS Step,        \* angle step in degrees
+CONSTANTS Step,        \* angle step in HUNDREDTHS of a degree (25 = quarter degrees)
           DevNoFloor, DoEmit
 
 Sectors == {3, 6}
 Theta3(s) == IF s = 3 THEN 70 ELSE 35
 Am(s)     == IF s = 3 THEN R(20) ELSE R(23)
 G(s)      == IF s = 3 THEN R(14) ELSE R(17)
-Parab(s, t) == RNorm(12 * t * t, Theta3(s) * Theta3(s))
+\* angles are rationals t/100 degrees (t an integer): quarter degrees over [-180, 180] plus the hundredths that bracket the
+\* point where the parabola meets the floor (theta_3dB sqrt(Am/12) = 90.37 / 48.45 degrees)
+Ratio(s, t) == RNorm(t, 100 * Theta3(s))
+Parab(s, t) == LMul(R(12), LMul(Ratio(s, t), Ratio(s, t)))
 Atten(s, t) == IF DevNoFloor THEN Parab(s, t) ELSE IF LLe(Parab(s, t), Am(s)) THEN Parab(s, t) ELSE Am(s)
 GaindB(s, t) == LSub(G(s), Atten(s, t))
 
-Angles == {t \in -180..180 : t % Step = 0}
+Near == {9036, 9037, 9038, 4844, 4845, 4846}
+Angles == {t \in -18000..18000 : t % Step = 0} \cup Near \cup {-t : t \in Near}
 OmniGains == <<R(0), R(0), R(3), R(-2), RNorm(5, 2)>>      \* entry 1: constructed without a gain (0 dBi)
 OmniThetas == <<-180, -90, -1, 0, 1, 45, 180>>
 
@@ -37,7 +42,7 @@ E(rec) == IF DoEmit THEN EmitCase(rec) ELSE TRUE
 
 Sector(s, t) ==
   /\ kind' = "sector" /\ sec' = s /\ th' = t /\ og' = og
-  /\ E([kind |-> "sector", sectors |-> s, theta |-> t, gain_dB |-> GaindB(s, t)])
+  /\ E([kind |-> "sector", sectors |-> s, theta |-> RNorm(t, 100), gain_dB |-> GaindB(s, t)])
 BadSectors(s) ==
   /\ kind' = "badsectors" /\ sec' = s /\ th' = 0 /\ og' = og
   /\ E([kind |-> "badsectors", sectors |-> s])
@@ -56,9 +61,9 @@ MaxAtBoresight == IsSector => /\ LLe(GaindB(sec, th), GaindB(sec, 0)) /\ GaindB(
                               /\ th # 0 => LLt(GaindB(sec, th), GaindB(sec, 0))
 Floored        == IsSector => LLe(LSub(G(sec), Am(sec)), GaindB(sec, th))
 FloorReached   == IsSector => /\ LLe(Am(sec), Parab(sec, th)) => GaindB(sec, th) = LSub(G(sec), Am(sec))
-                              /\ GaindB(sec, 180) = LSub(G(sec), Am(sec))
+                              /\ GaindB(sec, 18000) = LSub(G(sec), Am(sec))
                               \* non-increasing away from boresight
-                              /\ (th >= 0 /\ th + Step <= 180) => LLe(GaindB(sec, th + Step), GaindB(sec, th))
+                              /\ (th >= 0 /\ th + Step <= 18000) => LLe(GaindB(sec, th + Step), GaindB(sec, th))
 \* (the omni law - same gain at every angle - has no content at model level: the emitted case carries ONE
 \*  expected gain for all of OmniThetas and the replay compares every angle, scalar and array, with it)
 =============================================================================
